@@ -201,7 +201,9 @@ class ConvertScatter(FragmentTask):
     prop = "C17"
     reach = "S"
     qual = CK + "chk2plt.convert"
-    first = staticmethod(_src("for (offsets, mins, maxs), bid in zip(out, state_bin_box_ids)"))
+    # the whole `with Pool() as pool:` statement: the pool call that collects the workers' results AND the loop that stores them
+    # (the worker is its interface here: task f returns the f-th result; the collection order is the pool's contract)
+    first = staticmethod(lambda s: isinstance(s, ast.With) and "write_plt_bin_from_chk" in ast.unparse(s))
     last = first
 
     def __init__(self):
@@ -218,7 +220,8 @@ class ConvertScatter(FragmentTask):
         arr2 = lambda rows: NDArray([len(rows), 2], lambda ix, rows=rows: _pick2(rows, ix), "f8")
         out = [(Vec(offs[f], "array"), arr2(mins[f]), arr2(maxs[f])) for f in range(2)]
         P = z3.Function("PRIOR", z3.IntSort(), z3.IntSort(), R)
-        frame = {"out": out, "state_bin_box_ids": [Vec([a, b], "array"), Vec([1], "array")],
+        self.contracts = {CK + "write_plt_bin_from_chk": lambda ex_, args, kw: out[args[0]]}
+        frame = {"mp_args": [0, 1], "state_bin_box_ids": [Vec([a, b], "array"), Vec([1], "array")],
                  "all_offsets_plt": Vec([z3.Real("o0"), z3.Real("o1"), z3.Real("o2")], "array"),
                  "all_mins_plt": NDArray([3, 2], lambda ix: P(to_z3(ix[0]), to_z3(ix[1])), "f8"),
                  "all_maxs_plt": NDArray([3, 2], lambda ix: P(to_z3(ix[0]) + 10, to_z3(ix[1])), "f8")}
